@@ -30,7 +30,8 @@ def log(*a):
 # --------------------------------------------------------------------------- TLC
 
 def tlc_cmd(module, cfg, workers, metadir, xmx, extra=()):
-    return ["java", "-XX:+UseParallelGC", "-Xmx" + xmx, "-Xss256m", "-cp", TLA_CP, "tlc2.TLC",
+    # TLC drops a tlc-<n> directory into java.io.tmpdir on every start: keep those inside the run's scratch directory
+    return ["java", "-XX:+UseParallelGC", "-Xmx" + xmx, "-Xss256m", "-Djava.io.tmpdir=" + os.path.dirname(metadir), "-cp", TLA_CP, "tlc2.TLC",
             "-workers", str(workers), "-metadir", metadir, "-config", cfg, *extra, module + ".tla"]
 
 
